@@ -268,3 +268,21 @@ func Watch(src string, limit time.Duration) (done func()) {
 	}()
 	return func() { close(ch) }
 }
+
+// MinimizeLines shrinks a source text line by line (delta debugging on
+// lines, then on single lines) while pred keeps holding.
+func MinimizeLines(src string, pred func(string) bool) string {
+	lines := strings.Split(src, "\n")
+	join := func(l []string) string { return strings.Join(l, "\n") }
+	for chunk := len(lines) / 2; chunk >= 1; chunk /= 2 {
+		for i := 0; i+chunk <= len(lines); {
+			cand := append(append([]string{}, lines[:i]...), lines[i+chunk:]...)
+			if pred(join(cand)) {
+				lines = cand
+			} else {
+				i += chunk
+			}
+		}
+	}
+	return join(lines)
+}
